@@ -74,6 +74,8 @@ func wide(tier string, rs []ledgerRun, extra ...ledgerRun) []ledgerRun {
 
 var three = []string{"G", "N1", "N2"}
 
+func cfl2(l string) ledger.TxSpec { return ledger.TxSpec{Label: l, From: "R", To: "B", Data: "filler"} }
+
 func only(ps ...string) map[string]bool {
 	m := map[string]bool{}
 	for _, p := range ps {
@@ -117,6 +119,10 @@ var ledgerSpecs = []ledgerSpec{
 			{"fractional-amounts", ledger.Cfg{Nodes: []string{"G"}, Supply: sp(10, 0), Menu: []ledger.TxSpec{tx("fa", "R", "A", 5, 200_000_000_000_000_000), tx("fb", "A", "B", 5, 700_000_000_000_000_000),
 				tx("fc", "B", "A", 0, 400_000_000_000_000_000), tx("fd", "B", "A", 0, 400_000_000_000_000_001), t7}, Props: only("C02")}, d, 0, 0},
 			{"pay-genesis-wallet", ledger.Cfg{Nodes: []string{"G"}, Supply: sp(10, 0), Menu: []ledger.TxSpec{t1, t11, t3}, Props: only("C02")}, d, 0, 0},
+			// a wallet is checkpointed with funds, spends exactly all of them, is checkpointed again, and spends once more
+			{"drain-to-zero+two-truncations", ledger.Cfg{Nodes: []string{"G"}, Supply: sp(10, 0), Menu: []ledger.TxSpec{tx("tz2", "A", "B", 6, 0), cfl2("c7"), cfl2("c8")},
+				Hidden: []ledger.TxSpec{t1, tx("tz", "A", "B", 6, 0), cfl2("c4"), cfl2("c5"), cfl2("c6")}, Truncate: true,
+				Prefix: []string{"P:0:t1", "P:0:c1", "P:0:c2", "P:0:c3", "T:0", "P:0:tz", "P:0:c4", "P:0:c5", "P:0:c6", "T:0"}, Props: only("C02")}, 3, 0, 0},
 			// a stale overdrawing side tip whose parents get checkpointed (node 0 holds mx on p1 while node 1's chain grows past it)
 			{"stale-side-tip+truncate", ledger.Cfg{Nodes: []string{"G", "N1"}, Supply: sp(10, 0), Menu: []ledger.TxSpec{t1, t3}, Hidden: []ledger.TxSpec{mx}, MaxProposeNodes: 1, Truncate: true,
 				Prefix: []string{"P:0:p1", "D:1:0", "X:0:mx", "P:1:p2", "P:1:p3", "P:1:p4", "D:0:2", "D:0:3", "D:0:4"}, Props: only("C02")}, d - 1, 0, 0},
@@ -209,7 +215,9 @@ var ledgerSpecs = []ledgerSpec{
 				Menu: []ledger.TxSpec{{Label: "gd", From: "G", To: "A", Data: "d"}, {Label: "nd", From: "N1", To: "A", Data: "d"}, t1},
 				Crafted: []ledger.TxSpec{{Label: "mgd", From: "G", To: "A", Data: "d"}, tx("mgs", "G", "A", 1, 0), {Label: "msd", From: "M", To: "A", Data: "d"},
 					// the same wallets under an alias address (other version byte, same key): the rules are about wallets, not strings
-					{Label: "malias", From: "M~v1", To: "A", Data: "d"}, {Label: "galias", From: "G~v1", To: "A", Data: "d"}},
+					{Label: "malias", From: "M~v1", To: "A", Data: "d"}, {Label: "galias", From: "G~v1", To: "A", Data: "d"},
+					// aliases with an altered checksum byte and with a byte appended after the checksum
+					{Label: "mcsum", From: "M~c1", To: "A", Data: "d"}, {Label: "gtrail", From: "G~t1", To: "A", Data: "d"}, {Label: "mtrail", From: "M~t1", To: "A", Data: "d"}},
 				Tick: true, Props: only("C10")}, d, 0, 0},
 		}
 	}},
